@@ -63,7 +63,7 @@ def HOp.args : HOp α ρ → List Nat
 theorem target_spec (op : HOp α ρ) :
     ((spec (HOp.fn op)).writes.filterMap fun a => (HOp.args op)[a]?) = op.target.toList ∧
     (spec (HOp.fn op)).aliases = false := by
-  cases op <;> exact ⟨by decide, by decide⟩
+  cases op <;> simp [HOp.fn, HOp.args, HOp.target, spec]
 
 /-- the table itself, for the functions without a `step` model (numbers, dense conversions, decompositions return
 new values and write nothing; TDVP/DMRG write `psi` = argument 1, never the Hamiltonian = argument 0; the graph
@@ -78,7 +78,7 @@ theorem spec_table :
     (∀ fn ∈ ["MPS.orthonormalize", "MPO.orthonormalize", "MPS.compress", "MPS.zero_qnumbers", "MPO.zero_qnumbers",
         "OpGraph.add", "OpGraph.simplify", "OpGraph.flip", "OpGraph.merge_edges", "OpGraph.rename_node_id",
         "OpGraph.rename_edge_id"], spec fn = ⟨[0], false⟩) := by
-  decide
+  simp [spec]
 
 /-! ## (1) frame of one call -/
 
